@@ -178,6 +178,7 @@ func wire4() []wire {
 		v4opt(93, 0, 7, 0, 0, 0, 11), v4opt(121, 16, 10, 2, 10, 0, 0, 2, 0, 10, 0, 0, 1, 32, 192, 168, 1, 7, 10, 0, 0, 3), v4opt(77, 1, 'a', 1, 'b'), end))
 	add("option-82-repeated-sub-options-not-last", v4pkt(v4opt(82, 1, 2, 'a', 'b', 1, 3, 'c', 'd', 'e', 2, 1, 'r', 1, 0), o53, v4opt(82, 9, 1, 'x'), o12, end))
 	add("strings-with-nul-and-durations-at-extremes", v4pkt(v4opt(12, 'h', 0, 'x', 0), v4opt(15, 0), v4opt(51, 0xff, 0xff, 0xff, 0xff), v4opt(58, 0, 0, 0, 0), v4opt(59, 0x80, 0, 0, 0), v4opt(108, 0, 0, 0, 1), v4opt(57, 0xff, 0xff), v4opt(116, 2), end))
+	add("routes-with-bits-beyond-the-prefix", v4pkt(o53, v4opt(121, 12, 10, 17, 10, 0, 0, 1, 22, 172, 16, 5, 10, 0, 0, 2, 31, 192, 168, 1, 7, 10, 0, 0, 3, 1, 0xff, 10, 0, 0, 4), end))
 	add("long-packet-padded-past-300", v4pkt(o53, o55, end, bytes.Repeat([]byte{0}, 80)))
 	return out
 }
